@@ -3,15 +3,15 @@ import json, os, threading
 from verifkit import read_lines, VERIF
 
 REQUIRED = ["DaeVerif.C17.Props." + n for n in [
-    "parse_total", "tokens_iff_tree", "parse_spells", "lexer_reads_back", "parse_render",
+    "tokens_iff_tree", "parse_spells", "lexer_reads_back", "parse_render",
     "parse_render_canonical", "wfCheck_establishes_WF", "skips_whitespace", "skips_line_comment", "skips_block_comment", "skips_concat",
     "walk_keeps_every_item", "walkFn_faithful",
     "merge_order", "relative_includes_resolve_against_entry_dir", "merge_into_appends", "circular_include_rejected", "include_of_visited_rejected",
-    "merge_no_file_twice", "merge_reads_confined", "confined_means_under", "merge_terminates", "merge_terminates_full",
-    "unknown_section_rejected", "missing_required_section_rejected", "unknown_key_rejected",
-    "missing_required_key_rejected", "defaults_applied", "defaults_applied_scalar", "defaults_applied_any_depth",
+    "merge_no_path_twice", "merge_reads_confined", "confined_means_under", "merge_terminates_partial",
+    "unknown_section_rejected", "missing_required_section_rejected", "unknown_and_missing_keys_rejected",
+    "unknown_key_rejected_one_struct", "missing_required_key_rejected_one_struct", "written_list_replaces_default", "defaults_applied", "defaults_applied_scalar", "defaults_applied_any_depth",
     "default_routing_fallback_applied", "default_http_method_applied",
-    "oversize_rejected", "compiled_within_limit",
+    "oversize_domain_set_rejected", "compiled_within_limit",
 ]]
 
 PARSE_SHARDS, CONFIG_SHARDS, COMPILE_SHARDS = 4, 2, 2
@@ -29,6 +29,83 @@ def shared_file(ctx, pkgname, in_cp):
     out = os.path.join(ctx.out, f"c17_shared_{pkgname}_test.go")
     open(out, "w").write(t)
     return out
+
+
+def _unhex(w):
+    return "" if w == "-" else bytes.fromhex(w).decode("utf-8", "replace")
+
+
+def parse_schema_line(line):
+    """decode the `schema …` op the harness probed by reflection into the shape of harness/golden/c17_schema.json"""
+    w = line.split()
+    it = iter(w[1:])
+    nxt = lambda: next(it)
+    assert nxt() == "K"
+    zeros = [[_unhex(nxt()), nxt()] for _ in range(int(nxt()))]
+    assert nxt() == "T"
+    structs = []
+    for _ in range(int(nxt())):
+        hr = nxt() == "1"
+        fields = []
+        for _ in range(int(nxt())):
+            key, kind, d = _unhex(nxt()), nxt(), nxt()
+            fields.append({"key": key, "kind": kind, "default": None if d == "!" else _unhex(d),
+                           "required": nxt() == "1", "repeatable": nxt() == "1"})
+        structs.append({"hasRules": hr, "fields": fields})
+    assert nxt() == "P"
+    specs = [{"name": _unhex(nxt()), "required": nxt() == "1", "kind": nxt()} for _ in range(int(nxt()))]
+    return {"scalar_kind_zero_values": zeros, "structs": structs, "sections": specs}
+
+
+def schema_drift(ctx, names):
+    """The schema is PROBED from the code under test, so a dropped `default:` / `required:` tag would be
+    followed by the model, not detected.  Compare the probe with the audited golden table."""
+    golden = json.load(open(os.path.join(VERIF, "harness", "golden", "c17_schema.json")))
+    probed = None
+    for nm in names:
+        for l in open(os.path.join(ctx.out, nm + ".ops"), encoding="utf-8", errors="replace"):
+            if l.startswith("schema "):
+                probed = parse_schema_line(l)
+                break
+        if probed:
+            break
+    if probed is None:
+        ctx.proof_failures.append("no schema line in the config streams")
+        return
+    for nm in names:
+        for l in open(os.path.join(ctx.out, nm + ".ops"), encoding="utf-8", errors="replace"):
+            if l.startswith("z "):
+                probed["max_match_set_len"] = int(l.split()[2])
+                break
+    diffs = []
+    def walk(a, b, path):
+        if isinstance(a, dict) and isinstance(b, dict):
+            for k in sorted(set(a) | set(b)):
+                walk(a.get(k), b.get(k), path + "." + k)
+        elif isinstance(a, list) and isinstance(b, list):
+            for i in range(max(len(a), len(b))):
+                x, y = (a[i] if i < len(a) else None), (b[i] if i < len(b) else None)
+                label = (x or y or {}).get("key") or (x or y or {}).get("name") if isinstance(x or y, dict) else None
+                walk(x, y, path + "[" + (label or str(i)) + "]")
+        elif a != b:
+            diffs.append(f"{path}: golden {a!r} ≠ probed {b!r}")
+    walk(golden, probed, "schema")
+    ctx.cov["schema_drift"] = diffs[:20]
+    if diffs:
+        ctx.report("the configuration schema probed from the code (section specs / keys / kinds / default: / required: tags / "
+                   "MaxMatchSetLen) differs from the audited table harness/golden/c17_schema.json — a documented default or a "
+                   "required marker changed; confirm against the documentation and update the golden table if intended: "
+                   + "; ".join(diffs[:6]),
+                   {"differences": diffs[:50]}, key="c17-schema-drift")
+
+
+def canon_line(s):
+    """Which error is reported is outside the property (only THAT it is an error, and what was opened):
+    error classes are kept for diagnosis but not compared."""
+    if s.startswith("err:") or s == "err":
+        i = s.find(" opened=")
+        return "err" + (s[i:] if i >= 0 else "")
+    return s
 
 
 def merge_stats(ctx, names):
@@ -53,6 +130,7 @@ class Part:
         self.names = [f"{prefix}{i}" for i in range(shards)]
         self.failed = None
         self.driver_ok = {}
+        self.class_diffs = 0
 
     def shard(self, binp, i):
         ctx = self.ctx
@@ -86,7 +164,9 @@ class Part:
             if not self.driver_ok.get(nm):
                 ctx.proof_failures.append(f"model driver c17drv failed on {nm}")
                 continue
-            mism = ctx.diff_streams(ops, impl, model, nm)
+            mism = ctx.diff_streams(ops, impl, model, nm, canon=canon_line)
+            self.class_diffs += sum(1 for a, b in zip(read_lines(impl), read_lines(model))
+                                    if a != b and canon_line(a) == canon_line(b))
             n_lines += ctx.cov["streams"][nm]["lines"]
             for ln, op, im, mo in mism[:4]:
                 kind = "PANIC in the real code" if im.startswith("crash:") else "implementation differs from proved model"
@@ -137,6 +217,11 @@ def run(ctx):
             return 2
     n_eval = sum(p.collect() for p in parts)
     names = [nm for p in parts for nm in p.names]
+    schema_drift(ctx, names)
+    ncd = sum(p.class_diffs for p in parts)
+    ctx.cov["error_class_differences_not_compared"] = ncd
+    if ncd:
+        ctx.say(f"NOTE property=C17 {ncd} inputs are rejected by both sides with a DIFFERENT error class (not part of the property; see the streams)")
     counters, samples = merge_stats(ctx, names)
 
     # accepted, non-trivial inputs (AST / typed config / merged tree compared field by field)
